@@ -43,6 +43,8 @@ def run_one(nixio, tx, conc, path, how):
                 if (exc is None) != (a["out"] == "ok"):
                     code = b"diverged"
                     break
+                if how == "flush_each":
+                    sess.nf.flush()        # a flush after every call: the last one follows the last call only
             if code == b"ok":
                 # what the writer itself sees must already be the specification state; a mismatch here is a
                 # storage-fidelity matter (C01 reports it), not a durability one
@@ -51,7 +53,7 @@ def run_one(nixio, tx, conc, path, how):
                 if pre:
                     code = b"diverged"
             if code == b"ok":
-                if how == "flush":
+                if how in ("flush", "flush_each"):
                     sess.nf.flush()
                 else:
                     sess.nf.close()
@@ -116,7 +118,7 @@ def replay_one(tx):
     _W["n"] += 1
     conc = _conc_for(tx, opts["seed"])
     path = os.path.join(_W["dir"], "k%d.nix" % (_W["n"] % 3))
-    how = "flush" if (_W["n"] + opts["seed"]) % 2 else "close"
+    how = ("flush", "close", "flush_each")[(_W["n"] + opts["seed"]) % 3]
     res = {"findings": [], "truncated": 0, "array_kills": 0, "calls": len(tx["hist"]) + 1}
     status, findings = run_one(_W["nixio"], tx, conc, path, how)
     if status == "diverged":
